@@ -100,12 +100,6 @@ Proof.
 Qed.
 
 (* memN and rev *)
-Lemma memN_app x a b : memN x (a ++ b) = memN x a || memN x b.
-Proof.
-  induction a as [|y a IH]; cbn [app memN]; [reflexivity|].
-  rewrite IH. rewrite orb_assoc. reflexivity.
-Qed.
-
 Lemma memN_rev x l : memN x (rev l) = memN x l.
 Proof.
   induction l as [|y l IH]; cbn [rev memN]; [reflexivity|].
